@@ -97,11 +97,65 @@ def call_lit(c):
             % (cstr(c["o0"]), _alist(c["kw0"]), cstr(c["o1"]), _kw1(c["kw1"])))
 
 
+# map side: literals through the constructor functions of Corr/Run_C10Map.v (mf, msp, mar, mvs, mva, mcs)
+def _m_axes(ax):
+    return clist([copt(a, cstr) for a in ax])
+
+
+def _m_spec(sp):
+    if sp is None:
+        return "None"
+    ins = clist([f"(mar {cstr(n)} {_m_axes(ax)})" for n, ax in sp["i"]])
+    outs = clist([f"(mar {cstr(n)} {_m_axes(ax)})" for n, ax in sp["o"]])
+    return f"(Some (msp {ins} {outs}))"
+
+
+def _m_val(v):
+    if isinstance(v, str):
+        return f"(mvs {cstr(v)})"
+    return f"(mva {clist([cnat(x) for x in v['sh']])} {clist([cstr(x) for x in v['d']])})"
+
+
+def _m_env(kvs):
+    return clist([cpair(cstr(k), _m_val(v)) for k, v in kvs])
+
+
+def _m_func(fd):
+    ret = fd.get("ret") if fd.get("ret") is not None else (fd.get("int") or [])
+    return ("(mf %s %s %s %s %s %s %s %s)" % (
+        cstr(fd["name"]), _strs(fd["outs"]), _strs(fd["params"]), _m_env(fd.get("bound") or []),
+        _m_env(fd.get("defaults") or []), _m_spec(fd.get("spec")),
+        clist([cnat(x) for x in (fd.get("int") or [])]), clist([cnat(x) for x in ret])))
+
+
+def mop_lit(o):
+    k = o["op"]
+    if k == "copy":
+        return "MCopy"
+    if k == "pickle":
+        return "MPickle"
+    if k == "rename":
+        return f"(MRename {clist([cpair(cstr(a), cstr(b)) for a, b in o['r']])})"
+    if k == "scope":
+        return f"(MScope {copt(o['s'], cstr)})"
+    if k == "addaxis":
+        return f"(MAddAxis {_strs(o['params'])} {cstr(o['axis'])})"
+    if k == "simplify":
+        return f"(MSimplify {cstr(o['o'])})"
+    raise ValueError(k)
+
+
 def emit_case(c) -> str:
     k = c["kind"]
     if k == "rewrite":
         return (f"(CRewrite {pipegen.pipeline_lit(c['p'])} {clist([op_lit(o) for o in c['ops']])} "
                 f"{clist([call_lit(x) for x in c['calls']])})")
+    if k == "map":
+        rq = c["req"]
+        internal = clist([cpair(cstr(n), clist([cnat(x) for x in v])) for n, v in (rq.get("internal") or [])])
+        return ("(CMap (mcs %s %s %s %s %s))" % (
+            clist([_m_func(f) for f in rq["funcs"]]), _m_env(c["inputs1"]), internal, mop_lit(c["mop"]),
+            clist([_m_env(v) for v in c["variants"]])))
     raise ValueError(k)
 
 
@@ -254,7 +308,71 @@ def run_impl(c):
                 obs.append(_call(b0.pipeline, [b0.log], x["o0"], dict(x["kw0"]))
                            + _call(pl, logs1, x["o1"], _kwargs1(x["kw1"])))
             return [status, structs, obs]
+        if k == "map":
+            return _run_map_case(c)
     raise ValueError(k)
+
+
+def _specs_obs(pl, order):
+    out = []
+    for f in pl.functions:
+        ms = f.mapspec
+        if ms is None:
+            txt = "None"
+        else:
+            ins = sorted(ms.inputs, key=lambda a: a.name)
+            txt = ((", ".join(str(a) for a in ins) if ins else "...") + " -> " + ", ".join(str(a) for a in ms.outputs))
+        out.append([list(_tup(f)), txt])
+    return sorted(out, key=lambda e: e[0])
+
+
+def _map_results(pl, names, inputs, internal):
+    from .. import mapsym
+
+    try:
+        r = pl.map({k: mapsym.make_input(v) for k, v in inputs}, run_folder=None, internal_shapes=internal,
+                   storage="dict", parallel=False)
+        return ["ok", [[n, mapsym.arr_obs(r[n].output)] for n in names]]
+    except Exception as e:  # noqa: BLE001
+        return Err(e)
+
+
+def _run_map_case(c):
+    import cloudpickle
+
+    from .. import mapsym
+
+    rq, o = c["req"], c["mop"]
+    names = [x for fd in rq["funcs"] for x in fd["outs"]]
+    internal = mapsym.internal_arg(rq)
+    try:
+        p0 = mapsym.build_pipeline(rq, mapsym.CallLog())
+        p1 = mapsym.build_pipeline(rq, mapsym.CallLog())
+    except Exception:  # noqa: BLE001
+        return ["bad-case"]
+    ren = {}
+    try:
+        k = o["op"]
+        if k == "copy":
+            p1 = p1.copy()
+        elif k == "pickle":
+            p1 = cloudpickle.loads(cloudpickle.dumps(p1))
+        elif k == "rename":
+            ren = dict(o["r"])
+            p1.update_renames(ren)
+        elif k == "scope":
+            ren = {n: _prepend(n, o["s"]) for n in _names(p1)}
+            p1.update_scope(o["s"], "*", "*")
+        elif k == "addaxis":
+            p1.add_mapspec_axis(*o["params"], axis=o["axis"])
+        elif k == "simplify":
+            p1 = p1.simplified_pipeline(o["o"])
+    except Exception as e:  # noqa: BLE001
+        return [Err(e), [], [], []]
+    origs = [_map_results(p0, names, v, internal) for v in c["variants"]]
+    internal1 = {ren.get(n, n): v for n, v in internal.items()} if internal else internal
+    rew = _map_results(p1, [ren.get(n, n) for n in names], c["inputs1"], internal1)
+    return [["ok"], _specs_obs(p1, names), origs, rew]
 
 
 # ------------------------------------------------------------------ generator
@@ -540,18 +658,110 @@ def gen_rewrite_case(rng, tier):
     return {"kind": "rewrite", "p": pd, "ops": ops, "calls": calls}
 
 
+def _relabel(v, tag):
+    if isinstance(v, str):
+        return f"{v}{tag}"
+    return {"sh": list(v["sh"]), "d": [f"{x}{tag}" for x in v["d"]], "as": "nd"}
+
+
+def _stack(vs):
+    """Stack input values of equal shape along a new last axis."""
+    if isinstance(vs[0], str):
+        return {"sh": [len(vs)], "d": list(vs), "as": "nd"}
+    n = len(vs[0]["d"])
+    return {"sh": list(vs[0]["sh"]) + [len(vs)], "d": [v["d"][i] for i in range(n) for v in vs], "as": "nd"}
+
+
+def gen_map_case(rng, tier):
+    from .. import mapgen
+
+    while True:
+        rq = mapgen.gen_request(rng, max_funcs=3, max_size=3, allow_internal=False, storages=("dict",))
+        if mapgen.request_size(rq) <= 18:
+            break
+    inputs = rq["inputs"]
+    names = []
+    for fd in rq["funcs"]:
+        for n in fd["params"] + fd["outs"]:
+            if n not in names:
+                names.append(n)
+    outs = [o for fd in rq["funcs"] for o in fd["outs"]]
+    kind = rng.choice(["copy", "pickle", "rename", "scope", "scope", "addaxis", "addaxis", "addaxis", "addaxis",
+                       "simplify"])
+    variants = [inputs]
+    inputs1 = inputs
+    if kind in ("copy", "pickle"):
+        mop = {"op": kind}
+    elif kind == "rename":
+        ks = rng.sample(names, rng.randint(1, min(3, len(names))))
+        r = [[k, f"n{j}_{k}"] for j, k in enumerate(ks)]
+        mop = {"op": "rename", "r": r}
+        rd = dict(r)
+        inputs1 = [[rd.get(k, k), v] for k, v in inputs]
+    elif kind == "scope":
+        sc = rng.choice(SCOPES)
+        mop = {"op": "scope", "s": sc}
+        inputs1 = [[f"{sc}.{k}", v] for k, v in inputs]
+    elif kind == "addaxis":
+        # an array that no function maps over would have to become an array OF arrays (not representable
+        # in the model's value domain): parameters are scalars or arrays with a MapSpec entry
+        mapped = {n for fd in rq["funcs"] if fd.get("spec") for n, _ in fd["spec"]["i"]}
+        roots = [k for k, v in inputs if isinstance(v, str) or k in mapped]
+        if not roots:
+            return gen_map_case(rng, tier)
+        qs = rng.sample(roots, 1 if rng.random() < 0.75 or len(roots) < 2 else 2)
+        n = rng.randint(1, 3)
+        mop = {"op": "addaxis", "params": qs, "axis": "kk"}
+        variants = []
+        for i in range(n):
+            variants.append([[k, (_relabel(v, f"@{i}") if k in qs else v)] for k, v in inputs])
+        inputs1 = []
+        for j, (k, v) in enumerate(inputs):
+            if k in qs:
+                inputs1.append([k, _stack([var[j][1] for var in variants])])
+            else:
+                inputs1.append([k, v])
+    else:
+        cand = []
+        prod = {o: fd for fd in rq["funcs"] for o in fd["outs"]}
+
+        def ups(o, seen):
+            for q in prod[o]["params"]:
+                if q in prod and q not in [b for b, _ in prod[o].get("bound") or []] and q not in seen:
+                    seen.append(q)
+                    ups(q, seen)
+            return seen
+        for o in outs:
+            u = ups(o, [])
+            if not u or any(prod[q].get("spec") for q in u):
+                cand.append(o)
+        if not cand:
+            return gen_map_case(rng, tier)
+        mop = {"op": "simplify", "o": rng.choice(cand)}
+    return {"kind": "map", "req": rq, "mop": mop, "inputs1": inputs1, "variants": variants}
+
+
 def generate(rng, tier, mult):
-    n = (260 if tier == "quick" else 6000) * mult
+    n = (220 if tier == "quick" else 5000) * mult
+    nm = (70 if tier == "quick" else 1500) * mult
     cases = []
     while len(cases) < n:
         c = gen_rewrite_case(rng, tier)
         if c is not None:
             cases.append(c)
+    with _quiet(), warnings.catch_warnings():
+        warnings.simplefilter("ignore")
+        for _ in range(nm):
+            cases.append(gen_map_case(rng, tier))
     return cases
 
 
 # ------------------------------------------------------------------ evidence helpers
 def nontrivial_key(c):
+    if c["kind"] == "map":
+        if c["mop"]["op"] in ("copy", "pickle"):
+            return None
+        return ("map", [f.get("spec") for f in c["req"]["funcs"]], c["mop"], c["inputs1"])
     if c["kind"] == "rewrite":
         if len(c["p"]["funcs"]) < 2 or all(o["op"] in ("copy", "pickle") for o in c["ops"]):
             return None
@@ -561,6 +771,9 @@ def nontrivial_key(c):
 
 def distribution(c):
     d = {"kind": c["kind"]}
+    if c["kind"] == "map":
+        d["mop"] = c["mop"]["op"]
+        d["nvariants"] = len(c["variants"])
     if c["kind"] == "rewrite":
         d["nops"] = len(c["ops"])
         for o in c["ops"]:
